@@ -156,6 +156,54 @@ def auto_cases(draw, tier):
     return c
 
 
+# ----------------------------------------------------------------------------- complete enumeration of directions and radial classes
+SITE_POS = [(0.0, 0.0, 0.0), (0.0, 0.5, 0.5), (0.5, 0.0, 0.5), (0.5, 0.5, 0.0), (0.0, 0.0, 0.5), (0.0, 0.5, 0.0), (0.5, 0.0, 0.0), (0.999, 0.001, 0.5)]
+DIRS = [np.array(d, float) / np.linalg.norm(d) for d in __import__('itertools').product((-1, 0, 1), repeat=3) if any(d)]
+ENUM_LATS = [(f, o) for f in gen.FAMILIES for o in gen.ORIENTS]
+
+
+def enum_size(tier):
+    return len(ENUM_LATS) * len(SITE_POS) * 4
+
+
+def enum_case(tier, idx):
+    mode, shifted = idx % 2, (idx // 2) % 2
+    idx //= 4
+    sp = SITE_POS[idx % len(SITE_POS)]
+    fam, ori = ENUM_LATS[idx // len(SITE_POS)]
+    lat = gen.fixed_lattice(fam, ori)
+    M = np.array(lat['matrix'])
+    inv = np.linalg.inv(M)
+    s0 = np.array(sp)
+    s1 = s0 + 0.5
+    sites_frac = np.array([s0, s1 - np.floor(s1)])
+    rA, rB, f = 0.6, 0.45, 0.5
+    radius = {'A': rA, 'A1': rB} if mode else rA
+    radii = [rA, rB if mode else rA]
+    frames = []
+    for d in DIRS:
+        for cls in range(6):
+            row = []
+            for k in range(2):
+                r = radii[k]
+                dist = [0.0, f * r - 2 * gen.DELTA, f * r + 2 * gen.DELTA, r - 2 * gen.DELTA, r + 2 * gen.DELTA, 1.5 * r][cls]
+                x = sites_frac[k] + (dist * (d if k == 0 else -d)) @ inv
+                row.append((x - np.floor(x)).tolist())
+            frames.append(row)
+    case = {'lattice': lat, 'sites': {'frac': sites_frac.tolist(), 'labels': ['A', 'A1']}, 'radius': radius, 'inner_fraction': f, 'diff': frames}
+    if shifted:  # the same geometry with atoms and sites handed over in other periodic images
+        t = np.arange(len(frames))
+        case['diff_shift'] = np.stack([np.stack([(t + a) % 3 - 1, (t // 3 + a) % 3 - 1, (t // 9) % 3 - 1], axis=-1) for a in range(2)], axis=1).astype(float).tolist()
+        case['sites']['image_shift'] = [[1.0, -1.0, 0.0], [0.0, 2.0, -1.0]]
+    return case
+
+
+def run_enum(case):
+    info = run(case)
+    info['labels'] = [x for x in info['labels']] + ['site-at-' + '/'.join(str(x) for x in case['sites']['frac'][0])] + (['other-images'] if case.get('diff_shift') else [])
+    return info
+
+
 SUBS = [
     Sub(name='states', kind='hyp', run=run, strategy=lambda tier: gen.hop_systems(tier=tier, max_frames=10 if tier == 'quick' else 24, max_diff=3 if tier == 'quick' else 5, labels=('A', 'A1', 'B', 'A10')),
         rule='all lattice families x 3 orientations; 1-6 labelled sites (corner/face positions over-represented); radius float or per-label dict; inner fraction in (0,1]; atoms placed deep inside / at the inner edge / in the shell / at the outer edge / just outside / interstitial along 26 directions',
@@ -163,4 +211,7 @@ SUBS = [
     Sub(name='automatic-radius', kind='hyp', run=run_auto, strategy=auto_cases,
         rule='radius=None: oracle recomputes min(2 x amplitude, separation/2 - 0.005), asserts disjoint spheres and the states at that radius; "too close" error accepted iff the separation implies it',
         n={'quick': 80, 'thorough': 1500}, shards={'quick': 4, 'thorough': 16}),
+    Sub(name='enum-directions', kind='enum', run=run_enum, size=enum_size, case_at=enum_case, exhaustive=True,
+        rule='complete enumeration: 7 lattice families x 3 orientations x first site at cell corner / each face centre / each edge centre / next to a face (second site half a cell away) x radius float / per-label dict (labels A, A1) x coordinates wrapped / given in other periodic images; two atoms visit all 26 Cartesian directions x 6 radial classes (centre, 2e-3 A inside/outside the inner radius, 2e-3 A inside/outside the radius, 1.5 r) around their site; outer and inner states vs brute-force minimum image, direct and through the public pipeline',
+        shards={'quick': 16, 'thorough': 16}),
 ]
